@@ -583,7 +583,13 @@ Token *tokenize(File *file) {
           p += 2;
         else if (isalnum(*p) || *p == '.' || *p == '_')
           p++;
-        else
+        else if (*p == '$' || (unsigned char)*p >= 0x80) {
+          // Any other character of an identifier continues it too.
+          char *next;
+          if (!is_ident2(decode_utf8(&next, p)))
+            break;
+          p = next;
+        } else
           break;
       }
       cur = cur->next = new_token(TK_PP_NUM, q, p);
